@@ -244,7 +244,83 @@ func runChain(cc chainCase) string {
 	return ""
 }
 
+// strip: "content rewritten by one plugin is what the next plugin and finally the server act on" also when the rewrite
+// REMOVES something: the first plugin returns the content without one of the metas and with an optional field left out
+// (cleared); the second plugin and the server must not see what was removed.
+func runStrip(op string) string {
+	l, err := net.Listen("tcp", "127.0.0.1:0")
+	if err != nil {
+		return ""
+	}
+	var mu sync.Mutex
+	var second map[string]any
+	srv := &http.Server{Handler: http.HandlerFunc(func(w http.ResponseWriter, r *http.Request) {
+		body, _ := io.ReadAll(r.Body)
+		var req struct {
+			Content map[string]any `json:"content"`
+		}
+		json.Unmarshal(body, &req)
+		if r.URL.Path == "/p0" {
+			if metas, ok := req.Content["metas"].(map[string]any); ok {
+				delete(metas, "drop")
+			}
+			delete(req.Content, "group_key")
+			delete(req.Content, "os")
+			b, _ := json.Marshal(map[string]any{"reject": false, "unchange": false, "content": req.Content})
+			w.Write(b)
+			return
+		}
+		mu.Lock()
+		second = req.Content
+		mu.Unlock()
+		io.WriteString(w, `{"reject":false,"unchange":true}`)
+	})}
+	go srv.Serve(l)
+	defer srv.Close()
+	m := plugin.NewManager()
+	for i := 0; i < 2; i++ {
+		m.Register(plugin.NewHTTPPluginOptions(v1.HTTPPluginOptions{Name: fmt.Sprintf("p%d", i), Addr: l.Addr().String(), Path: fmt.Sprintf("/p%d", i), Ops: []string{op}}))
+	}
+	metas := map[string]string{"keep": "1", "drop": "2"}
+	var finalMetas map[string]string
+	var finalOpt string
+	switch op {
+	case "Login":
+		c, err := m.Login(&plugin.LoginContent{Login: msg.Login{User: "u", Os: "linux", Metas: metas}})
+		if err != nil {
+			return "login refused: " + err.Error()
+		}
+		finalMetas, finalOpt = c.Metas, c.Os
+	case "NewProxy":
+		c, err := m.NewProxy(&plugin.NewProxyContent{User: plugin.UserInfo{User: "u", RunID: "r"}, NewProxy: msg.NewProxy{ProxyName: "n", ProxyType: "tcp", GroupKey: "gk", Metas: metas}})
+		if err != nil {
+			return "new proxy refused: " + err.Error()
+		}
+		finalMetas, finalOpt = c.Metas, c.GroupKey
+	}
+	mu.Lock()
+	defer mu.Unlock()
+	if second == nil {
+		return "the second plugin was not consulted"
+	}
+	if ms, _ := second["metas"].(map[string]any); ms["drop"] != nil || ms["keep"] == nil {
+		return fmt.Sprintf("%s: the first plugin removed the meta \"drop\" (and kept \"keep\"); the second plugin saw metas %v", op, ms)
+	}
+	if second["group_key"] != nil || second["os"] != nil {
+		return fmt.Sprintf("%s: the first plugin cleared an optional field; the second plugin still saw group_key=%v os=%v", op, second["group_key"], second["os"])
+	}
+	if _, still := finalMetas["drop"]; still || finalMetas["keep"] != "1" || finalOpt != "" {
+		return fmt.Sprintf("%s: the server acts on metas %v and optional field %q after the first plugin removed \"drop\" and cleared the field", op, finalMetas, finalOpt)
+	}
+	return ""
+}
+
 func main() {
+	drv.E2Replayers["strip"] = func(raw json.RawMessage) string {
+		var op string
+		json.Unmarshal(raw, &op)
+		return runStrip(op)
+	}
 	drv.E2Replayers["chain"] = func(raw json.RawMessage) string {
 		var cc chainCase
 		json.Unmarshal(raw, &cc)
@@ -254,7 +330,7 @@ func main() {
 	if c == nil {
 		return
 	}
-	c.Rule("complete product: 6 operations x chains of n <= N real HTTP plugins x per-plugin operation subset {other ops only, this op, all ops} x per-plugin outcome {accept unchanged (wrong content type), accept with modified content, reject with reason, HTTP 500, connection reset, malformed JSON, empty body}, executed against stub plugin servers on loopback and compared with a reference chain (order, short-circuit, edits visible downstream, fail closed, not consulted when not registered, close-proxy notifies all); non-trivial = distinct chain case")
+	c.Rule("complete product: 6 operations x chains of n <= N real HTTP plugins x per-plugin operation subset {other ops only, this op, all ops} x per-plugin outcome {accept unchanged (wrong content type), accept with modified content, reject with reason, HTTP 500, connection reset, malformed JSON, empty body}, executed against stub plugin servers on loopback and compared with a reference chain (order, short-circuit, edits visible downstream, fail closed, not consulted when not registered, close-proxy notifies all); rewrites that remove a meta or clear an optional field (Login, NewProxy) are what the next plugin and the server see; non-trivial = distinct chain case")
 	N := drv.Pick(c, 2, 3)
 	var cases []chainCase
 	var rec func(op string, chain []pluginSpec, d int)
@@ -302,6 +378,12 @@ func main() {
 	}
 	close(ch)
 	wg.Wait()
+	for _, op := range []string{"Login", "NewProxy"} {
+		c.Count("strip:" + op)
+		if e := runStrip(op); e != "" {
+			c.ViolateConfirmed("strip", "strip:"+op, e, op, 2)
+		}
+	}
 	c.Sample(cases[len(cases)/2])
 	c.Note("chain_cases", len(cases))
 	c.Finish()
